@@ -256,7 +256,12 @@ def run(ck):
     n2 = unacknowledged(ck, agg, nn)
     n3 = relay(ck, agg, nn)
     n4 = pipe_address(ck, agg, nn)
+    # "nodes configured with allow_multicast off do not listen on the shared level address": the setting reaches pipe 0 when the address is
+    # re-assigned (docs), so the re-assignment must re-open the pipes for every valid value, the current one included (R04.8, shared with C04)
+    from . import c04
+    n5 = c04.reconfigure(ck, agg)
     agg.flush()
+    ck.floor("R04.8", "re-assignment scenarios", n5, 4)
     ck.floor("R14.1", "level scenarios", n1, 15)
     ck.floor("R14.2", "transmit scenarios", n2, 8)
     ck.floor("R14.3", "receive scenarios", n3, 60)
